@@ -175,6 +175,34 @@ def check(ck):
         ck.require(okv, "C20.5", "%s: field value = getattr(obj, name)" % where, "value read from the object",
                    "the dumped field value is %s" % prov.show(tv)[:60], q.loc(fd, n))
 
+    # a value of an unsupported type is only looked at by the type test: every other use of the field value (recursive dump,
+    # membership test, formatting for a log line) is on the true edge of isinstance(value, known_types).  Evaluating it
+    # elsewhere runs the object's own __repr__ / __eq__ / __str__, which can raise: the field is then not omitted, dump fails.
+    for (n, c) in field_rec:
+        if not isinstance(c.args[0], ast.Name):
+            continue
+        vname = c.args[0].id
+        n_use = 0
+        for m in g.live_nodes():
+            uses = [x for e in node_exprs(m) for x in ast.walk(e) if isinstance(x, ast.Name) and x.id == vname and isinstance(x.ctx, ast.Load)]
+            if not uses or not (loops and loops[0].id in dom[m.id]):
+                continue
+            is_type_test = m.kind in ("test", "branch") and any(isinstance(e, ast.Call) and dump(e.func) == "isinstance" and e.args and dump(e.args[0]) == vname
+                                                                for e in node_exprs(m))
+            if is_type_test:
+                continue
+            from vlib.model import is_logging_call
+            lazy = [x for cc in node_calls(m) if is_logging_call(cc) for x in cc.args if isinstance(x, ast.Name) and x.id == vname]
+            if len(lazy) == len(uses):
+                continue        # handed to the logger as a lazy argument: formatted (and any failure swallowed) by logging
+            n_use += 1
+            guarded = any(g.nodes[d].kind == "branch" and g.nodes[d].polarity and isinstance(g.nodes[d].test, ast.Call) and
+                          dump(g.nodes[d].test.func) == "isinstance" and dump(g.nodes[d].test.args[0]) == vname for d in dom[m.id])
+            ck.require(guarded, "C20.5", "%s: use of the field value in `%s`" % (where, q.stmt_text(m)[:40]), "only after the type test succeeded",
+                       "`%s` evaluates a field value whose type was not (or not successfully) tested: for a value of an unsupported type this "
+                       "runs the object's own __repr__ / __str__ / __eq__, and if that raises the field is not omitted - the whole dump fails"
+                       % q.stmt_text(m)[:70], q.loc(fd, m))
+
     # ---- C20.6 per-request copy keeps the customisation -----------------------------------------------------------
     common.check_config_copy(ck, "C20.6", only=("serialize_method", "ignore_attribute", "serialize_handlers", "use_jsonclass", "classes"))
 
